@@ -601,6 +601,24 @@ def _move_initializers_to_graph(src: ir.Graph, dst: ir.Graph) -> None:
         dst.register_initializer(initializer)
 
 
+def _initializers_to_constants(graph: ir.Graph) -> list[ir.Node]:
+    """Pop all initializers of the graph and return Constant nodes producing the same values."""
+    nodes = []
+    for name in list(graph.initializers):
+        value = graph.initializers.pop(name)
+        assert value.const_value is not None
+        nodes.append(
+            ir.Node(
+                "",
+                "Constant",
+                inputs=[],
+                attributes=[ir.AttrTensor("value", value.const_value)],
+                outputs=[value],
+            )
+        )
+    return nodes
+
+
 @register("If")
 def if_op(node: ir.Node, op, state: OptimizerState) -> ReturnValue:
     cond_input = _get_input(node, 0)
@@ -1259,6 +1277,13 @@ class FoldConstantsPass(ir.passes.InPlacePass):
                 ) from e
             if output is not None:
                 if isinstance(output, Replacement):
+                    if is_function and node.graph is not None and node.graph.initializers:
+                        # A function body cannot hold initializers (they are not serialized): the
+                        # initializers of an inlined If branch become Constant nodes.
+                        output = Replacement(
+                            output.new_outputs,
+                            [*_initializers_to_constants(node.graph), *output.new_nodes],
+                        )
                     return output
                 if isinstance(output, ir.Value):
                     output = [output]
